@@ -207,6 +207,22 @@ def run_b(prop, tier, want_prof):
                 nd = Node('slice', next(ids), (tuple(range(n0)[slice(*sl)]), sl), [inner])
                 if r.random() < 0.4:
                     nd = Node('map', next(ids), (('FAdd', 0),), [nd])
+            if _ % 10 == 5:
+                # every tenth pipeline: batches above mapped stages whose last batch is incomplete (or exactly full), read by position -
+                # the incomplete batch must evaluate each of its examples once, like every other batch
+                n0 = r.randint(1, 7)
+                k0 = r.choice([2, 2, 3, 4])
+                inner = Node('map', next(ids), (('FAdd', 1),), [Node('src', next(ids), (tuple(range(20, 20 + n0)),))])
+                if r.random() < 0.5:
+                    inner = Node('map', next(ids), (('FMul', 2),), [inner])
+                nd = Node('batch', next(ids), (k0,), [inner])
+                top = r.random()
+                if top < 0.25:
+                    nd = Node('map', next(ids), (('FAdd', 0),), [nd])
+                elif top < 0.4:
+                    nb = -(-n0 // k0)
+                    idx = tuple(r.sample(range(nb), nb))
+                    nd = Node('slice', next(ids), (idx,), [nd])
             if not want_prof and r.random() < 0.12:
                 nd = Node('lazymap', next(ids), (r.choice([('FAdd', 1), ('FMul', 2)]),), [nd])      # a lazily applied stage on top
             take_log()
@@ -226,7 +242,7 @@ def run_b(prop, tier, want_prof):
             gets = []
             n = out_len(nd)
             if n is not None and all(x.op not in ('filter', 'unbatch', 'lazymap') for x in walk(nd)):
-                for i in sorted(set([0, n - 1, n, r.randint(0, n + 1)])):
+                for i in (range(n + 2) if n <= 5 else sorted(set([0, n - 1, n, r.randint(0, n + 1)]))):
                     if i < 0:
                         continue
                     take_log()
